@@ -14,10 +14,12 @@ RULE = ("valid streams of every method and the small .drc files of testdata (bit
         "declared = points (+ faces / encoded vertices) read from the stream, or of the returned geometry; requests above "
         f"the cap ({R.CAP} bytes) are refused and must be within the bound. Lean model on the same bytes: status, declared "
         "count (sequential streams), geometry; distinct op lines")
-THEOREM_BACKED = ("alloc_bounded: every event of the allocation log of decodeGeometry on bs is <= 4259840 + 2048 * (bs.length "
-                  "+ declared) for accepted and rejected streams (sequential decoders); alloc_bounded_undeclared; "
-                  "symbol_tables_bounded (tables of RAnsSymbolDecoder::Create for any bytes); num_symbols_guard; "
-                  "metadata_reader_is_suffix")
+THEOREM_BACKED = ("alloc_bounded: every event of the allocation log of decodeGeometrySeq on bs is <= 4259840 + 2048 * (bs.length + "
+                  "declared) for accepted and rejected streams (sequential decoders of every bitstream version); "
+                  "alloc_bounded_seq_stream (complete decodeGeometry on streams announcing a sequential method); "
+                  "alloc_bounded_with (dispatcher with arbitrary body decoders that keep the allocation invariant); "
+                  "alloc_bounded_undeclared; symbol_tables_bounded (tables of RAnsSymbolDecoder::Create for any bytes, as the "
+                  "function symbolAllocs of the bytes, not part of the log); num_symbols_guard; metadata_reader_is_suffix")
 CORRESPONDENCE_ONLY = ("kd-tree / Edgebreaker decoders and bitstream < 2.0 attribute decoders are outside the model: the bound "
                        "is measured on the implementation only; the model's allocation log is an idealisation of the C++ "
                        "allocation sites (it is tied by the declared counts and by status / geometry equality, not byte for byte)")
